@@ -495,9 +495,11 @@ def seg_count(tree: BaseSegment, k: INT, n: INT) -> INT:
 
 
 @spec(opaque=True)
-def seg_directive(d, c, m):
-    """d is the directive that comment segment c (of kind 1) stands for, on c's source line"""
-    return parsed_as(d, comment_content(trim(seg_text(c))), pm_line(c.pos_marker), pm_pos(c.pos_marker), m)
+def seg_entry_at(xs, j, tree, i, m):
+    """xs[j] is what the i-th comment of the tree stands for (a directive / a malformed-directive error on its source line)"""
+    cs = comments_of(tree)
+    return (parsed_as(xs[j], comment_content(trim(seg_text(cs[i]))), pm_line(cs[i].pos_marker), pm_pos(cs[i].pos_marker), m)
+            if (0 <= j < len(xs) and 0 <= i < len(cs)) else False)
 
 
 @spec
@@ -505,12 +507,15 @@ def tree_mask(ds, es, tree, m, n):
     """(ds, es) are the directives and malformed-directive errors of the first n comments of the tree: one directive per
     noqa comment, in file order, each on the line of its comment; one error per malformed one"""
     cs = comments_of(tree)
+    # (proof plumbing, always True: makes the definition of seg_entry_at available outside the quantifiers below)
+    a1 = seg_entry_at(ds, 0, tree, 0, m) or True
+    a2 = seg_entry_at(es, 0, tree, 0, m) or True
     c1 = len(ds) == seg_count(tree, 1, n) and len(es) == seg_count(tree, 2, n)
-    c2 = all(implies(seg_kind(cs[i]) == 1, 0 <= seg_count(tree, 1, i) < len(ds) and seg_directive(ds[seg_count(tree, 1, i)], cs[i], m))
+    c2 = all(implies(seg_kind(cs[i]) == 1, 0 <= seg_count(tree, 1, i) < len(ds) and seg_entry_at(ds, seg_count(tree, 1, i), tree, i, m))
              for i in range(0, n))
-    c3 = all(implies(seg_kind(cs[i]) == 2, 0 <= seg_count(tree, 2, i) < len(es) and seg_directive(es[seg_count(tree, 2, i)], cs[i], m))
+    c3 = all(implies(seg_kind(cs[i]) == 2, 0 <= seg_count(tree, 2, i) < len(es) and seg_entry_at(es, seg_count(tree, 2, i), tree, i, m))
              for i in range(0, n))
-    return c1 and c2 and c3
+    return a1 and a2 and c1 and c2 and c3
 
 
 @contract("sqlfluff.core.rules.noqa:IgnoreMask.from_tree", PROP)
